@@ -2,7 +2,7 @@ import Afkak.Monitor.C16
 /-!
 # C16 — full-strength statements that are NOT proved (and why)
 
-The state invariants and ten of the eleven trace monitors are discharged in `AfkakProps/C16.lean`
+The state invariants and all trace monitors but the two below are discharged in `AfkakProps/C16.lean`
 (`C16_fenced_trace`, `C16_join_after_drain`, `C16_one_join`, `C16_heartbeat_only_stable` moved there
 from this file).
 -/
@@ -18,5 +18,13 @@ open Afkak.Group Afkak.Consts Afkak.Monitor.C16
     (no heartbeat outstanding — it is abandoned at the join reply and none is sent while a rejoin is
     wanted — and no live consumer whose error could clear the member id). -/
 def C16_starts_with_join_ids : Prop := ∀ (cfg : Cfg) (evs : List Ev), startsWithJoinIds (toMSteps (run cfg evs)) = true
+
+/-- The STRICT reading of "after stop no group request other than the leave": after `stop()` has been
+    CALLED on a started, not stopping member.  FALSE of the code (`C16_strict_after_stop_counterexample`,
+    known finding `group-requests-during-stop-drain`): `ConsumerGroup.stop` drains the consumers before
+    `Coordinator.stop` sets `_stopping`, and during the drain heartbeats continue and a pending rejoin may
+    look the coordinator up.  Proved instead: nothing but the leave once `Coordinator.stop` has begun
+    (`C16_after_stop_only_leave`) and no JoinGroup once `stop()` was called (`C16_no_join_after_stop_called`). -/
+def C16_after_stop_called_only_leave : Prop := ∀ (cfg : Cfg) (evs : List Ev), strictAfterStop (toMSteps (run cfg evs)) = true
 
 end Afkak.Props.C16.Open
